@@ -146,6 +146,9 @@ def gen_program(rng, for_c02):
     return cap, base, prog
 
 
+SPURIOUS = 25  # per-mille chance per scheduling decision of a spurious futex return (legal: the code must re-check)
+
+
 def params_of(cap, base, prog, to_us=5000):
     return "cap=%d,base=%d,prog=%s,to_us=%d" % (cap, base, prog, to_us)
 
@@ -157,7 +160,7 @@ def record(progs, seeds, strategy, out, jobs=None, extra=None):
     os.makedirs(os.path.dirname(out), exist_ok=True)
     for idx, (cap, base, prog) in enumerate(progs):
         raw = "%s.%d.ndjson" % (out, idx)
-        args = ["--scenario", "bq", "--params", params_of(cap, base, prog), "--strategy", strategy, "--seeds", "%d:%d" % seeds, "--out", raw, "--max-steps", "20000"]
+        args = ["--scenario", "bq", "--params", params_of(cap, base, prog), "--strategy", strategy, "--seeds", "%d:%d" % seeds, "--out", raw, "--max-steps", "20000", "--spurious", str(SPURIOUS)]
         if strategy != "pb":
             args += ["-j", str(jobs or 8)]
         if extra:
@@ -210,7 +213,7 @@ def rerun(key):
     params = ",".join("%s=%s" % (k, v) for k, v in p.items())
     raw = os.path.join(vlib.BUILD, "traces", "rerun.%d.ndjson" % os.getpid())
     st = key["strategy"]
-    args = ["--scenario", key["scenario"], "--params", params, "--seeds", "%d:%d" % (key["seed"], key["seed"] + 1), "--out", raw, "--max-steps", "20000"]
+    args = ["--scenario", key["scenario"], "--params", params, "--seeds", "%d:%d" % (key["seed"], key["seed"] + 1), "--out", raw, "--max-steps", "20000", "--spurious", str(SPURIOUS)]
     if key.get("script") and st == "pb":
         args += ["--strategy", "pb", "--script", ",".join(map(str, key["script"])), "--max-execs", "1"]
     elif st == "pct":
@@ -259,7 +262,7 @@ def run(pid, tier, seed, replay=None):
         os.unlink(raw)
         followed = 0
         for ex, (c, b, p, st) in zip(e4, beh):
-            order = [(-1 if x["k"] == "tick" else x["t"]) for x in bq.normalise(ex) if x["k"] not in ("reset", "end", "final")]
+            order = [(-1 if x["k"] == "tick" else (-2 - x["t"]) if x["k"] == "spur" else x["t"]) for x in bq.normalise(ex) if x["k"] not in ("reset", "end", "final")]
             if order[:len(st)] == st and ex[-1].get("status") != "script_mismatch":
                 followed += 1
             else:
